@@ -135,9 +135,14 @@ void ezc3d::DataNS::Data::frame(const ezc3d::DataNS::Frame &frame, size_t idx)
 {
     if (idx == SIZE_MAX)
         idx = _frames.size(); // append a copy so the stored frame does not share its points and analogs with the caller
-    if (idx >= _frames.size())
+    if (idx >= _frames.size()){
+        // The frame may be one of the frames of this data set: copy it before the storage is moved by the resize
+        ezc3d::DataNS::Frame copy;
+        copy.add(frame);
         _frames.resize(idx+1);
-    _frames[idx].add(frame);
+        _frames[idx] = copy;
+    } else
+        _frames[idx].add(frame);
 }
 
 const std::vector<ezc3d::DataNS::Frame> &ezc3d::DataNS::Data::frames() const
